@@ -186,7 +186,7 @@ def run(tier: str, seed: int) -> int:
         from .. import session
         import jax.numpy as _jnp
         import exponax as _ex
-        session.run_for(run_, tier, seed, _ex, _jnp, ['derive'], PID)
+        session.run_for(run_, tier, seed, _ex, _jnp, ['derive', 'poisson'], PID)
     return run_.finish()
 
 
